@@ -56,6 +56,8 @@ THEOREMS = [
     # what is false on the unchanged code / what the statement does not claim
     'CpProofs.C06.C06_stream_full_false',
     'CpProofs.C06.stream_204_keeps_body',
+    'CpProofs.C06.stale_copy_ignored_with_its_headers',
+    'CpProofs.C06.handlerOk_of_no_own_length',
     'CpProofs.C06.bare_error_framed',
     'CpProofs.C06.none_length_resolved',
     'CpProofs.C06.handlerFileObj_CLok',
@@ -103,9 +105,10 @@ ASSUMPTIONS = [
     'stream first (Lean: stream_204_keeps_body)',
     'file length does not change under a static response; HTTP/1.1 requests; sizes below the cache limits; no cookies',
 ]
-RULE = ('a case = handler (body shape, status action, Content-Type, optional own Content-Length / stream) x tool subset '
-        'x error-page kind x a history of 1-3 requests (method, Accept-Encoding, If-None-Match, If-Match, '
-        'Accept-Charset, Range); quick = systematic blocks (every status action x every body shape; every tool subset x '
+RULE = ('a case = handler (body shape - possibly a different value, of a different length, on every invocation -, status '
+        'action, Content-Type, optional own Content-Length / stream) x tool subset x error-page kind x optional user hook '
+        'x a history of 1-5 requests (method, Accept-Encoding, If-None-Match, If-Match, Accept-Charset, Range, cache '
+        'directive max-age / no-cache / Pragma / no-store, logical-clock advance); quick = systematic blocks (every status action x every body shape; every tool subset x '
         'representative handlers; caching histories) + seeded weighted sample; thorough = the whole core lattice. '
         'Non-trivial = at least one tool, error/redirect path, non-200 status or non-bytes body is involved; '
         'distinct = distinct driver line')
@@ -140,8 +143,21 @@ BODIES = {
     'json': 'J:b' + H(b'aa') + ',b' + H(b'b'),
     'big': 'B:b' + H(b'x' * 700),
 }
+# handlers whose value changes from invocation to invocation (length grows / shrinks / becomes empty)
+BODIES.update({
+    'gbytes': 'B:b' + H(b'v0') + '|B:b' + H(b'version-1') + '|B:b' + H(b'the third version is longer'),
+    'gshrink': 'B:b' + H(b'a long first version of it') + '|B:b' + H(b'short') + '|B:b' + H(b's'),
+    'ggen': 'G:b' + H(b'g0') + '|G:b' + H(b'g1') + ',b' + H(b'more') + '|G:b' + H(b'g2') + ',b' + H(b'more') + ',b' + H(b'again'),
+    'gempty': 'B:b' + H(b'something') + '|B:|B:b' + H(b'back again, longer'),
+    'gtext': 'S:t104.233|S:t104.233.8364.8364|S:t104',
+    'gjson': 'J:b' + H(b'a') + '|J:b' + H(b'a') + ',b' + H(b'bcd') + '|J:b' + H(b'a') + ',b' + H(b'bcd') + ',b' + H(b'efghij'),
+    'gstatic': 'X:b' + H(b'0123456789') + '|X:b' + H(b'0123456789abcdefghij') + '|X:b' + H(b'01234'),
+})
+GROWING = ['gbytes', 'gshrink', 'ggen', 'gempty', 'gtext', 'gjson', 'gstatic']
+CCS = ['-', 'maxage0', 'maxage10', 'maxage1000', 'nocache', 'pragma', 'nostore', 'badmaxage']
+DTS = [0, 0, 1, 5, 20, 700]
 ALLBYTES = {'bytes', 'empty', 'none', 'list', 'elist', 'gen', 'egen', 'file', 'efile', 'big', 'fileobj', 'efileobj'}
-TEXTY = {'text', 'latin', 'tlist', 'tgen', 'tgen2'}
+TEXTY = {'text', 'latin', 'tlist', 'tgen', 'tgen2', 'gtext'}
 STATUSES = ['-', 's201', 's204', 's205', 's304', 's100', 's206', 's404', 'i',
             'e404', 'e402', 'e500', 'e410', 'r303', 'r301', 'r304', 'r305', 'r306', 'x']
 TOOLS = ['encode', 'gzip', 'etags', 'caching', 'expires', 'flatten', 'stream']
@@ -167,8 +183,9 @@ def mk(body='bytes', st='-', tools=(), reqs=None, page='tmpl', ct='html', hcl=0,
             'hcl': hcl, 'hstream': hstream, 'hook': hook, 'reqs': reqs or [{'m': 'GET'}]}
 
 
-def req(m='GET', ae='-', inm='-', im='-', ac='-', rng='-'):
-    return {'m': m, 'ae': ae, 'inm': inm, 'im': im, 'ac': ac, 'range': rng}
+def req(m='GET', ae='-', inm='-', im='-', ac='-', rng='-', cc='-', dt=0):
+    """dt = seconds the logical clock advances before this request"""
+    return {'m': m, 'ae': ae, 'inm': inm, 'im': im, 'ac': ac, 'range': rng, 'cc': cc, 'dt': dt}
 
 
 def normalise(case):
@@ -185,10 +202,19 @@ def normalise(case):
                                and c.get('ct') in ('html', 'plain'))
         if not ok:
             c['hcl'] = 0
+    if '|' in c['body']:
+        c['hcl'] = 0       # (a fixed own length cannot be right for every generation)
+        if b == 'gstatic':
+            for r in c['reqs']:
+                r['range'] = '-'
+    t = 0
+    for r in c['reqs']:
+        t += int(r.get('dt', 0))
+        r['t'] = t
     if b in ('fileobj', 'efileobj') and c['st'][0] not in '-si':
         c['st'] = '-'      # (the model's serve_fileobj handler sets a status or none; it does not raise)
-    if b in ('static', 'estatic'):
-        c['hcl'] = 1 if c.get('hcl') else 0
+    if b in ('static', 'estatic', 'gstatic'):
+        c['hcl'] = 1 if (c.get('hcl') and b != 'gstatic') else 0
         if c['st'][0] not in '-s':
             c['st'] = '-'
     else:
@@ -200,31 +226,34 @@ def normalise(case):
 
 
 def model_line(case):
-    tools = ''.join(TOOL_LETTER[t] for t in case['tools']) or '-'
+    tools = ''.join(TOOL_LETTER[t] for t in case['tools']) + ('j' if case['body'].startswith('J:') else '') or '-'
     if case['page'] in R.TMPL_PAGES:
         page = 'pt'
     elif case['page'] == 'iter':
         page = 'pi:' + '/'.join(x.hex() for x in R.PAGES['iter'])
     else:
         page = 'pc:' + (R.PAGES[case['page']].hex() or '-')
-    body = case['body']
-    if body.startswith('J:'):
-        kind, chunks = R.parse_body(body)
-        from cherrypy import _json
-        val = R.make_body(kind, chunks)
-        body = 'G:' + ','.join('b' + bytes(x).hex() for x in _json.encode(val))
+    alts = []
+    for body in case['body'].split('|'):
+        if body.startswith('J:'):
+            kind, chunks = R.parse_body(body)
+            from cherrypy import _json
+            val = R.make_body(kind, chunks)
+            body = 'G:' + ','.join('b' + bytes(x).hex() for x in _json.encode(val))
+        alts.append(body)
+    body = '|'.join(alts)
     reqs = []
     for r in case['reqs']:
         rg = 'N'
-        if case['body'].startswith('X:') and r.get('range', '-') != '-':
+        if case['body'].startswith('X:') and '|' not in case['body'] and r.get('range', '-') != '-':
             rs = R.ranges_for(case, r)
             rg = 'N' if rs is None else ('E' if rs == [] else '/'.join('%d-%d' % p for p in rs))
         inm = 'match' if r['inm'].startswith('"') else r['inm']
         im = 'match' if r['im'].startswith('"') else r['im']
-        reqs.append(','.join([r['m'], r['ae'], inm, im, r['ac'], rg]))
+        reqs.append(','.join([r['m'], r['ae'], inm, im, r['ac'], rg, r.get('cc', '-'), str(r.get('t', 0))]))
     hcl = 'N'
     if case['hcl']:
-        hcl = str(R.own_length(case, R.parse_body(case['body'])[1]))
+        hcl = str(R.own_length(case, R.parse_body(case['body'].split('|')[0])[1]))
     return ' '.join([tools, page, case['ct'], hcl, str(int(bool(case['hstream']))),
                      case['st'], body, case.get('hook', '-'), ';'.join(reqs)])
 
@@ -380,7 +409,7 @@ def eval_chunk(cases):
 
 
 def nontrivial(case):
-    return bool(case['tools']) or case['st'] != '-' or case.get('hook', '-') != '-' or case['bname'] not in ('bytes',) or len(case['reqs']) > 1 \
+    return bool(case['tools']) or case['st'] != '-' or '|' in case['body'] or case.get('hook', '-') != '-' or case['bname'] not in ('bytes',) or len(case['reqs']) > 1 \
         or any(r['m'] != 'GET' or r['ae'] != '-' or r['inm'] != '-' or r['im'] != '-' for r in case['reqs'])
 
 
@@ -410,7 +439,8 @@ def shrink_case(case, sig):
             c['tools'] = [x for x in c['tools'] if x != t]
             cands.append(c)
         for i, r in enumerate(cur['reqs']):
-            for k, dflt in (('ae', '-'), ('inm', '-'), ('im', '-'), ('ac', '-'), ('range', '-'), ('m', 'GET')):
+            for k, dflt in (('ae', '-'), ('inm', '-'), ('im', '-'), ('ac', '-'), ('range', '-'), ('m', 'GET'),
+                            ('cc', '-')):
                 if r.get(k, dflt) != dflt:
                     c = json.loads(json.dumps(cur))
                     c['reqs'][i][k] = dflt
@@ -420,10 +450,11 @@ def shrink_case(case, sig):
                 c = json.loads(json.dumps(cur))
                 c[k] = dflt
                 cands.append(c)
-        if cur['bname'] != 'bytes':
-            c = json.loads(json.dumps(cur))
-            c['bname'], c['body'] = 'bytes', BODIES['bytes']
-            cands.append(c)
+        for simple in ('bytes', 'gbytes'):
+            if cur['bname'] not in ('bytes', simple):
+                c = json.loads(json.dumps(cur))
+                c['bname'], c['body'] = simple, BODIES[simple]
+                cands.append(c)
         for c in cands:
             if still_fails(c, sig):
                 cur = normalise(c)
@@ -454,6 +485,9 @@ def process(ctx, cases, compare_model=True, procs=1):
         for t in case['tools']:
             ctx.count('tool:' + t)
         ctx.count('history:' + '+'.join(r['m'] for r in case['reqs']))
+        for r in case['reqs']:
+            if r.get('cc', '-') != '-' or r.get('dt'):
+                ctx.count('cache-directive:%s/dt%s' % (r.get('cc', '-'), r.get('dt', 0)))
         if case.get('hook', '-') != '-':
             ctx.count('hook:' + case['hook'].split(':')[1][:1] + '@' + case['hook'].split(':')[0])
         for o in obs:
@@ -490,6 +524,21 @@ def process(ctx, cases, compare_model=True, procs=1):
 # ----------------------------------------------------------------------------------------------
 # generators
 # ----------------------------------------------------------------------------------------------
+def regen_patterns():
+    """request histories that force a URI with a stored copy to be regenerated, then hit it"""
+    return [
+        [req('GET'), req('GET', cc='maxage10', dt=20), req('HEAD'), req('GET')],
+        [req('GET'), req('GET', cc='nocache'), req('GET'), req('HEAD', dt=5)],
+        [req('GET'), req('HEAD', cc='pragma', dt=1), req('GET', cc='pragma'), req('HEAD')],
+        [req('GET'), req('GET', dt=700), req('GET', dt=1), req('HEAD')],
+        [req('HEAD'), req('GET', cc='maxage0', dt=1), req('HEAD'), req('GET', cc='maxage0')],
+        [req('GET'), req('GET', cc='badmaxage'), req('HEAD', cc='maxage1000', dt=20), req('GET')],
+        [req('GET', cc='nostore'), req('GET'), req('GET', cc='nostore', dt=5), req('HEAD', cc='maxage0', dt=5),
+         req('GET')],
+        [req('GET'), req('POST'), req('GET'), req('GET', cc='maxage10', dt=20), req('HEAD')],
+    ]
+
+
 def systematic_quick():
     out = []
     # every status action x every body shape, plain GET and HEAD
@@ -533,6 +582,19 @@ def systematic_quick():
                 for m1, m2 in (('GET', 'GET'), ('HEAD', 'GET'), ('GET', 'HEAD'), ('POST', 'GET'), ('GET', 'POST')):
                     for ae in ('-', 'gzip'):
                         out.append(mk(b, st, tools, [req(m1, ae=ae), req(m2, ae=ae)], page='short'))
+    # a URI that already has a stored copy is regenerated (copy too old for the request's max-age / for the
+    # cache's delay, no-cache, Pragma, POST) with a body of a *different length*, then hit by GET / HEAD;
+    # text and non-text entities (json_out, octet-stream: the encode tool leaves Content-Length alone)
+    patterns = regen_patterns()
+    for b, ct in (('gbytes', 'html'), ('gbytes', 'octet'), ('gshrink', 'octet'), ('gshrink', 'plain'),
+                  ('ggen', 'json'), ('gjson', 'json'), ('gjson', 'html'), ('gempty', 'octet'), ('gtext', 'html'),
+                  ('gstatic', 'octet'), ('gstatic', 'plain')):
+        for enc in ([], ['encode']):
+            for gz in ([], ['gzip']):
+                for extra in ([], ['etags'], ['stream']):
+                    for pat in patterns:
+                        reqs = [dict(r, ae='gzip' if gz else '-') for r in pat]
+                        out.append(mk(b, '-', ['caching'] + enc + gz + extra, reqs, ct=ct, page='short'))
     # a cached copy answered with 304 / 412 (conditions evaluated against the stored entity tag)
     for tools in (['caching', 'etags'], ['caching', 'etags', 'gzip'], ['caching', 'etags', 'gzip', 'encode', 'stream']):
         for b in ('bytes', 'gen', 'text', 'static'):
@@ -574,14 +636,16 @@ def systematic_quick():
 
 
 def random_case(rng):
-    b = rng.choice(list(BODIES))
-    st = rng.choice(STATUSES) if rng.random() < 0.6 else '-'
     tools = [t for t in TOOLS if rng.random() < 0.4]
+    b = rng.choice(list(BODIES))
+    if 'caching' in tools and rng.random() < 0.5:
+        b = rng.choice(GROWING)
+    st = rng.choice(STATUSES) if rng.random() < 0.6 else '-'
     if rng.random() < 0.08:
         tools.append('errfails')
     nreq = 1
     if 'caching' in tools:
-        nreq = rng.choice([1, 2, 2, 3])
+        nreq = rng.choice([1, 2, 3, 3, 4, 5])
     elif rng.random() < 0.1:
         nreq = 2
     reqs = []
@@ -592,7 +656,9 @@ def random_case(rng):
                         inm=rng.choice(CONDS) if rng.random() < 0.35 else '-',
                         im=rng.choice(CONDS) if rng.random() < 0.2 else '-',
                         ac=rng.choice(ACS) if rng.random() < 0.4 else '-',
-                        rng=rng.choice(RANGES) if rng.random() < 0.5 else '-'))
+                        rng=rng.choice(RANGES) if rng.random() < 0.5 else '-',
+                        cc=rng.choice(CCS) if ('caching' in tools and rng.random() < 0.45) else '-',
+                        dt=rng.choice(DTS) if 'caching' in tools else 0))
     hook = '-'
     if rng.random() < 0.25:
         hook = '%d:%s:%d' % (rng.choice(HOOK_PRIOS), rng.choice(HOOK_ACTS), rng.choice([0, 1, 1]))
@@ -623,6 +689,17 @@ def hook_lattice():
                         rq = req(m, ae='gzip', rng='bytes=2-5')
                         yield normalise(mk(b, '-', tools, [rq, dict(rq)] if 'caching' in tools else [rq],
                                            hook=hook, hcl=1, page='short'))
+
+
+def regen_lattice():
+    """every regeneration history x every changing body x content type x every tool subset with caching"""
+    for pat in regen_patterns():
+        for b in GROWING:
+            for ct in ('html', 'json', 'octet'):
+                for tools in ALL_SUBSETS:
+                    if 'caching' in tools:
+                        reqs = [dict(r, ae='gzip' if 'gzip' in tools else '-') for r in pat]
+                        yield normalise(mk(b, '-', tools, reqs, ct=ct, page='short'))
 
 
 def corpus_cases():
@@ -658,6 +735,9 @@ def run(ctx):
         ctx.extra['exhaustive'] = True
         ctx.extra['exhaustive_core_lattice'] = len(core)
         ctx.extra['exhaustive_hook_lattice'] = len(hooks)
+        regen = list(regen_lattice())
+        process(ctx, regen, procs=procs)
+        ctx.extra['exhaustive_regeneration_lattice'] = len(regen)
     ctx.extra['systematic_block'] = len(sysq)
 
 
